@@ -117,6 +117,28 @@ def ensure_facts(verbose=True):
         lock.close()
 
 
+def _undo_state_transform(d):
+    """A coroutine body whose pre-transform MIR was no longer available: the state machine's entry
+    dispatch jumps straight to every resume point, which would let every path skip what precedes
+    an await. Rebuild the source-level CFG: entry -> start arm; `discriminant = k; return` -> resume arm k."""
+    bbs = d['bb']
+    if not bbs or bbs[0]['t'][0] != 'sw':
+        return
+    t0 = bbs[0]['t']
+    arms = {int(v): b for v, b in t0[2]}
+    if 0 not in arms:
+        return
+    for b in bbs:
+        k = None
+        for st in b['s']:
+            if st[1][0] == 'setdisc' and st[0][0] == 1:
+                k = st[1][1]
+        if k is not None and b['t'][0] == 'ret' and k in arms and k >= 3:
+            b['t'] = ['yield', arms[k]]
+    bbs[0]['t'] = ['goto', arms[0]]
+    d['co'] = 3
+
+
 class Fn:
     __slots__ = ('d', 'name', 'crate', 'bbs', '_succ', '_pred')
 
@@ -172,6 +194,8 @@ class Crate:
             for line in fh:
                 # local items print as `crate::…`: qualify with the crate name
                 d = json.loads(rx.sub(rep, line))
+                if d.get('co') == 2:
+                    _undo_state_transform(d)
                 self.fns[d['n']] = Fn(d, name)
 
 
